@@ -477,3 +477,55 @@ Proof.
         (conj ReadPoolProofs.wedged_pool_blocks_every_reader ReadPoolProofs.pl_witness_runs)).
 Qed.
 Print Assumptions pool_wrapper_needs_the_release_on_every_path.
+
+(* ---------------------------------------------------------------- round 6: the CONNECTION POOL as a resource *)
+From Qryn Require model.ReadConn proofs.ReadConnProofs.   (* qualified: short constructor names *)
+
+(* Over the generated connection flow of every function body / literal of reader/ per result-set variable
+   (`rows, err := X.QueryCtx(..)`) and per channel of a lending call (`ch, err := f(..)`, f may issue a statement and
+   returns a channel: the goroutine feeding it holds the result set): on EVERY path through the body -- any branch, any
+   number of loop iterations, break / continue / return -- no connection is asked for (a statement of its own, or a call of
+   a function that may issue one: least fixpoint over the call graph) while the variable holds one. The connection is given
+   back by Close(), by reading the rows to the end (`for rows.Next()` left because Next() = false), and for a lent one by
+   reading the channel until it is closed; `defer rows.Close()` acts only when the function is left (that is seeded change
+   C12-f: the complex processor called from inside the rows loop of the complexity statement, rows still open). Every
+   statement site of the inventory is the acquisition of a flow (or reviewed: the wrapper's own forwarding). *)
+Theorem no_request_asks_for_a_connection_while_holding_one :
+  ReadConn.conn_inventory_ok reader_conn_flows reader_query_sites reader_untracked_lends = true /\
+  forall f, In f reader_conn_flows -> forall o st',
+    ReadConn.cexec (ReadConn.cf_body f) ReadConn.Free o st' ->
+    o <> ReadConn.COWait /\ (o = ReadConn.CONormal \/ o = ReadConn.COReturn).
+Proof.
+  split; [vm_compute; reflexivity|]. apply ReadConnProofs.cflows_ok_sound. vm_compute. reflexivity.
+Qed.
+Print Assumptions no_request_asks_for_a_connection_while_holding_one.
+
+(* the analysis is sound for EVERY body (induction on the syntax, inner induction on the path for loops) *)
+Theorem connection_flow_analysis_sound : forall body, ReadConn.cbody_ok body = true ->
+  forall o st', ReadConn.cexec body ReadConn.Free o st' ->
+    o <> ReadConn.COWait /\ (o = ReadConn.CONormal \/ o = ReadConn.COReturn).
+Proof. exact ReadConnProofs.cbody_ok_sound. Qed.
+Print Assumptions connection_flow_analysis_sound.
+
+(* The pool: ANY size >= 1 (max_open_connection), ANY number of concurrent requests, each ANY sequence of asks / gives /
+   other work in which a connection is asked for only while none is held and none is kept at the end (kn_ok), EVERY
+   interleaving: finite, and a state in which nobody can move has every request through and every connection back. *)
+Theorem connection_pool_never_wedged_by_one_at_a_time_requests : forall cap ts, (1 <= cap)%nat ->
+  forallb ReadConn.kt_ok ts = true ->
+  Acc (fun b a => ReadConn.kstep cap a b) ts /\
+  forall ts', Relation_Operators.clos_refl_trans_1n _ (ReadConn.kstep cap) ts ts' -> (forall ts'', ~ ReadConn.kstep cap ts' ts'') ->
+    forallb ReadConnProofs.kdone ts' = true /\ ReadConn.kheld ts' = 0%nat.
+Proof.
+  intros cap ts Hcap Hok. split; [apply ReadConnProofs.pool_schedules_finite|].
+  exact (ReadConnProofs.disciplined_threads_reach_the_end cap ts Hcap Hok).
+Qed.
+Print Assumptions connection_pool_never_wedged_by_one_at_a_time_requests.
+
+(* ... and the discipline is NEEDED, for every pool size: as many requests as the pool has connections, each holding one
+   and asking for another (whatever they would do afterwards): nobody can move, nobody is through, the pool is empty. The
+   request of seeded change C12-f reaches that state on a pool of one; the request as the code is passes kn_ok. *)
+Theorem hold_and_wait_wedges_the_connection_pool : forall cap q, (1 <= cap)%nat ->
+  let ts := repeat (1%nat, ReadConn.KAcq :: q) cap in
+  (forall ts', ~ ReadConn.kstep cap ts ts') /\ forallb ReadConnProofs.kdone ts = false /\ ReadConn.kheld ts = cap.
+Proof. exact ReadConnProofs.hold_and_wait_wedges_the_pool. Qed.
+Print Assumptions hold_and_wait_wedges_the_connection_pool.
